@@ -181,6 +181,29 @@ func profile(name string, rng *vhlib.Rng, n int) []mop {
 			}
 		}
 	}
+	// the zero key (Go zero value of the key type) takes part in every profile: one key that is put by the
+	// profile swaps roles with 0, so 0 is present while absent keys are removed, and is itself removed and re-put
+	if name != "extreme-ints" {
+		var puts []int
+		for _, o := range ops {
+			if o.kind == 0 {
+				puts = append(puts, o.k)
+			}
+		}
+		if len(puts) > 0 {
+			pivot := puts[rng.Intn(len(puts))]
+			for i := range ops {
+				switch ops[i].k {
+				case pivot:
+					ops[i].k = 0
+				case 0:
+					if ops[i].kind != 2 {
+						ops[i].k = pivot
+					}
+				}
+			}
+		}
+	}
 	return ops
 }
 
